@@ -90,6 +90,13 @@ pub struct Workload {
     /// the directory)
     #[serde(default)]
     pub same_pid: bool,
+    /// history: the existing output file has a second hard link (an artifact store keeping
+    /// compiled files by link), so whoever rewrites it in place also rewrites the copy
+    #[serde(default)]
+    pub extra_link: bool,
+    /// history: permission bits of the existing output file (0 = whatever the umask gave)
+    #[serde(default)]
+    pub out_mode: u32,
 }
 
 pub const F_SHORT: u32 = 1;
@@ -299,6 +306,12 @@ pub fn generate(rng: &mut Rng, thorough: bool) -> Workload {
         procs: (rng.chance(1, 160) || std::env::var("DSIM_FORCE_PROCS").is_ok())
             && std::env::var("DSIM_NO_PROCS").is_err(),
         same_pid: rng.chance(1, 2),
+        extra_link: rng.chance(1, 6),
+        out_mode: if rng.chance(1, 4) {
+            *rng.pick(&[0o600u32, 0o755, 0o664, 0o640, 0o4755])
+        } else {
+            0
+        },
     }
 }
 
@@ -346,6 +359,13 @@ pub fn setup_dir(wl: &Workload) -> Option<Vec<u8>> {
         InitialOut::File(d) => {
             let s = materialise(d);
             fs::write(OUT, &s).unwrap();
+            if wl.out_mode != 0 {
+                use std::os::unix::fs::PermissionsExt;
+                let _ = fs::set_permissions(OUT, fs::Permissions::from_mode(wl.out_mode));
+            }
+            if wl.extra_link {
+                let _ = fs::hard_link(OUT, format!("{}/store-3f9a.hex", DIR));
+            }
             initial = Some(s.into_bytes());
         }
         InitialOut::Symlink(d) => {
@@ -435,7 +455,19 @@ fn writer_body(idx: usize, w: Writer, out_form: u8) -> Box<dyn FnOnce(&Actor) + 
                 chialisp::classic::clvm_tools::clvmc::compile_clvm(&inp, out, &[], &mut syms)
                     .map(|_| ())
             }
-            Api::PyPath => py_path_compile(&inp, out),
+            // the real Python entry point where this build has it (thread-backed actors
+            // only: a forked child has no usable interpreter), else its call sequence
+            Api::PyPath => {
+                let real = if actor.is_proc() {
+                    None
+                } else {
+                    crate::pybind::compile_clvm(&inp, out, &[])
+                };
+                match real {
+                    Some(r) => r.map(|_| ()),
+                    None => py_path_compile(&inp, out),
+                }
+            }
         };
         let info = {
             let _g = seam::HarnessGuard::new();
@@ -1231,6 +1263,18 @@ pub fn run_one(wl: &Workload, tape: &mut Tape, entropy_seed: u64) -> Result<RunR
         )
     }
     .map_err(|e| format!("{:?}", e))?;
+    if wl.extra_link && matches!(wl.initial, InitialOut::File(_)) {
+        policy.probes.hit("history_output_has_second_hard_link");
+    }
+    if wl.out_mode != 0 && matches!(wl.initial, InitialOut::File(_)) {
+        policy.probes.hit("history_output_has_unusual_mode_bits");
+    }
+    if !wl.procs && crate::pybind::available() {
+        let n = wl.writers.iter().filter(|w| w.api == Api::PyPath).count();
+        if n > 0 {
+            policy.probes.hit_n("writer_through_python_binding_compile_clvm", n as u64);
+        }
+    }
     if wl.procs {
         policy.probes.hit("run_with_process_backed_actors");
         if wl.same_pid {
@@ -1275,6 +1319,8 @@ pub fn run_one(wl: &Workload, tape: &mut Tape, entropy_seed: u64) -> Result<RunR
             out_form: 0,
             procs: false,
             same_pid: false,
+            extra_link: false,
+            out_mode: 0,
         };
         let world2 = seam::new_world(1, true, world.now_ns());
         let mut pol2 = LivenessPolicy {};
@@ -1384,6 +1430,7 @@ impl Prop for C19 {
         "C19"
     }
     fn init_process() {
+        crate::pybind::init();
         // force lazy statics of the compiler on a non-actor thread, and the reference
         // outputs of every program a compile writer may be given
         for tag in 1..=6u32 {
@@ -1481,6 +1528,16 @@ impl Prop for C19 {
             c.out_mtime_rel = 0;
             out.push(c);
         }
+        if w.extra_link {
+            let mut c = w.clone();
+            c.extra_link = false;
+            out.push(c);
+        }
+        if w.out_mode != 0 {
+            let mut c = w.clone();
+            c.out_mode = 0;
+            out.push(c);
+        }
         match &w.initial {
             InitialOut::Absent => {}
             InitialOut::File(d) => {
@@ -1524,7 +1581,7 @@ impl Prop for C19 {
         if thorough {
             900_000
         } else {
-            160_000
+            120_000
         }
     }
     fn determinism_runs() -> u64 {
@@ -1543,9 +1600,10 @@ impl Prop for C19 {
     }
     fn real_vs_stub() -> serde_json::Value {
         serde_json::json!({
-            "real": ["chialisp::util::atomic_write_file", "chialisp::util::gentle_overwrite", "chialisp::classic::clvm_tools::clvmc::compile_clvm (incl. dep_util::newer, the compiler itself)", "py/api.rs run_clvm_compilation re-enacted call for call (read, compile_clvm_text, node_to_bytes, gentle_overwrite)", "tempfile 3.22 (NamedTempFile, persist) built with rustix_use_libc", "std::fs", "kernel tmpfs"],
+            "real": ["chialisp::util::atomic_write_file", "chialisp::util::gentle_overwrite", "chialisp::classic::clvm_tools::clvmc::compile_clvm (incl. dep_util::newer, the compiler itself)", "py/api.rs run_clvm_compilation re-enacted call for call (read, compile_clvm_text, node_to_bytes, gentle_overwrite) in process-backed runs and in builds without the binding", "tempfile 3.22 (NamedTempFile, persist) built with rustix_use_libc", "std::fs", "kernel tmpfs"],
             "simulated": ["scheduler (who performs the next file-system call)", "clock (clock_gettime, file mtimes)", "entropy (getrandom)", "fault decisions per call", "process death (ghosting in thread-backed runs, _exit of the child in process-backed runs)", "getpid() in process-backed runs"],
-            "not_run": ["pyo3 and wasm bindings themselves"]
+            "python_binding": if crate::pybind::available() { "real: src/py/api.rs `compile_clvm` (pyo3 0.24, CPython 3.11 embedded in the worker; the GIL is handed back while an actor is parked) for every PyPath writer of thread-backed runs" } else { "not in this build (built with --no-default-features): re-enacted" },
+            "not_run": ["wasm bindings"]
         })
     }
     fn bounds(thorough: bool) -> serde_json::Value {
